@@ -711,7 +711,7 @@ def rule_nothing_before_the_request_frame(ctx):
         inter, role = m.role(h)
         if role != 'requester' or inter not in ('stream', 'channel'):
             continue
-        pre0 = init_bools(ctx, m, h)
+        pre0 = init_bools(ctx, m, h, constructed=True)
         sub = [e for e in m.entries(h) if e.kind == 'method' and e.func.node.name == 'subscribe']
         if not sub:
             raise AnalysisError('C08.m: %s has no subscribe()' % h.name)
